@@ -24,7 +24,7 @@ def obligations(tier: str) -> list[Ob]:
         harness_ob(
             "merge_matrix", "C15_merge.py", tier, timeout=200 if q else 900, cpus=16, parallel=16, replay_func="vlib.props.C15:replay",
             encoded=["openapi_python_client.parser.properties.merge_properties:merge_properties", "openapi_python_client.parser.properties.merge_properties:_merge_common_attributes", "openapi_python_client.parser.properties.merge_properties:_merge_with_enum", "openapi_python_client.parser.properties.merge_properties:_merge_numeric", "openapi_python_client.parser.properties.merge_properties:_merge_string_with_format"],
-            bounds={"pairs": "all 16 x 16 ordered kind pairs", "flags": "required x required x default-present x default-present (symbolic)"},
+            bounds={"pairs": "all 16 x 16 ordered kind pairs", "flags": "required x required x default-present x default-present (symbolic)", "enum pairs": "6 value-list pairs (coinciding member names with other values, true subsets, disjoint) x both styles x both orders"},
         ),
         harness_ob(
             "parents_any_order", "C12_order.py", tier, funcs=["schema_declaration_order"], timeout=200 if q else 900, cpus=1, replay_func="vlib.props.C15:replay",
